@@ -31,11 +31,16 @@ def split(args: Sequence[str]) -> tuple[Sequence[str], Sequence[str]]:
     i = 0
     for i in range(len(args)):
         a = args[i]
-        if a in ["-m", "--module"]:
+        if a in ["-m", "--module", "--"]:
+            # the target is the next arg
             i = min(i + 1, len(args) - 1)
             break
+        elif a.startswith("--module=") or (a.startswith("-m") and len(a) > 2):
+            # the target is attached to the flag
+            break
         elif a.startswith("-"):
-            in_flag = True
+            # --flag=value and -fvalue carry their value, otherwise the next arg is the flag's value
+            in_flag = "=" not in a if a.startswith("--") else len(a) == 2
         elif not in_flag:
             break
         else:
